@@ -495,7 +495,7 @@ def r6(cx, rec):
         sel = {}
         for sb in f.switches():
             ce, ts, o = f.cond(sb)
-            x = mirq.init_of(ce)
+            x = C.through_helper(ce)
             if x[0] == 'call' and x[4].get('name') == 'all' and f.bool_edges(sb):
                 tt, ff = f.bool_edges(sb)
                 for edge, lab in ((tt, 'seeding'), (ff, 'leeching')):
